@@ -669,6 +669,81 @@ theorem T_C16_circle_get_length_real {C e1 e2 : Vec ℝ} (hF : Frame e1 e2) {r :
 
 example : ((2 : ℝ) * 3.15 / 99) * (2 * 3.15 / 99) / 24 < 1.7e-4 := by norm_num
 
+/-! ### round 6d: descending parameters; additivity of the linear interpolant at arbitrary split parameters -/
+
+open CBV.C08 (Frame circAt) in
+/-- **Descending parameter lists** (`param_from > param_to`: the implementation discretises from the larger to the smaller parameter):
+    the same two-sided bound, by symmetry of the distance — for a list whose reverse ascends in steps of at most `h ≤ 2`,
+    `arc·(1 − h²/24) ≤ chord sum ≤ arc` with `arc = r·(first − last)`. -/
+theorem T_C16_circle_resampling_desc_real {C e1 e2 : Vec ℝ} (hF : Frame e1 e2) {r : ℝ} (hr : 0 ≤ r) {h : ℝ} (hh : h ≤ 2)
+    (ts : List ℝ) (first last : ℝ) (hf : ts.head? = some first) (hl : ts.getLast? = some last) (hs : Steps h ts.reverse) :
+    r * (first - last) * (1 - h * h / 24) ≤ polyLenR distR (ts.map (circAt C e1 e2 r)) ∧
+    polyLenR distR (ts.map (circAt C e1 e2 r)) ≤ r * (first - last) := by
+  have e : polyLenR distR (ts.map (circAt C e1 e2 r)) = polyLenR distR (ts.reverse.map (circAt C e1 e2 r)) := by
+    rw [List.map_reverse, polyLenR_reverse distR distR_symm]
+  rw [e]
+  exact T_C16_circle_resampling_real hF hr hh ts.reverse last first
+    (by rw [List.head?_reverse]; exact hl) (by rw [List.getLast?_reverse]; exact hf) hs
+
+example : Steps (1 / 2) ([1, 1 / 2, 1 / 4] : List ℝ).reverse := by
+  simp only [List.reverse_cons, List.reverse_nil, List.nil_append, List.cons_append, Steps]; norm_num
+
+/-- **`LinearInterpolatedCurve.get_length` is additive over a split at an arbitrary parameter** — on the exact polyline model
+    (`interp1d` over chord-length knots of exact positive segment lengths, any exact distance function), no hypothesis on the curve:
+    for `0 ≤ a ≤ b ≤ c ≤ 1`, `L(a, c) = L(a, b) + L(b, c)`; also with the parameters of any call in the other order
+    (`T_C16_linear_exact` is symmetric in its two parameters). -/
+theorem T_C16_linear_additive_exact (ps : List V) (ds : List Rat) (hw : SegWitPos ps ds) (hlen : 2 ≤ ps.length)
+    (d : V → V → Rat) (hd : ∀ p q, 0 ≤ d p q ∧ d p q * d p q = dist2 p q)
+    (a b c : Rat) (ha : 0 ≤ a) (hab : a ≤ b) (hbc : b ≤ c) (hc : c ≤ 1) :
+    ∃ l1 l2,
+      getLengthI d (fun t => (lerp (knotParams ds) ps t).getD default) (knotParams ds) a b = some l1 ∧
+      getLengthI d (fun t => (lerp (knotParams ds) ps t).getD default) (knotParams ds) b c = some l2 ∧
+      getLengthI d (fun t => (lerp (knotParams ds) ps t).getD default) (knotParams ds) a c = some (l1 + l2) ∧
+      getLengthI d (fun t => (lerp (knotParams ds) ps t).getD default) (knotParams ds) c a = some (l1 + l2) := by
+  have hb0 : 0 ≤ b := le_trans ha hab
+  have hb1 : b ≤ 1 := le_trans hbc hc
+  have hc0 : 0 ≤ c := le_trans hb0 hbc
+  have ha1 : a ≤ 1 := le_trans hab hb1
+  have hac : a ≤ c := le_trans hab hbc
+  refine ⟨(b - a) * total ds, (c - b) * total ds, ?_, ?_, ?_, ?_⟩
+  · have := T_C16_linear_exact ps ds hw hlen d hd a b ⟨ha, ha1⟩ ⟨hb0, hb1⟩
+    rwa [max_eq_right hab, min_eq_left hab] at this
+  · have := T_C16_linear_exact ps ds hw hlen d hd b c ⟨hb0, hb1⟩ ⟨hc0, hc⟩
+    rwa [max_eq_right hbc, min_eq_left hbc] at this
+  · have := T_C16_linear_exact ps ds hw hlen d hd a c ⟨ha, ha1⟩ ⟨hc0, hc⟩
+    rw [max_eq_right hac, min_eq_left hac] at this
+    rw [this]; congr 1; ring
+  · have := T_C16_linear_exact ps ds hw hlen d hd c a ⟨hc0, hc⟩ ⟨ha, ha1⟩
+    rw [max_eq_left hac, min_eq_right hac] at this
+    rw [this]; congr 1; ring
+
+/-- **The length of a function curve does not depend on the order of the two parameters** — in the model, exactly, for every curve
+    function, sample count ≥ 2 and symmetric distance: `discretize(b, a, n)` is `discretize(a, b, n)` reversed (`linspace_reverse`), and a
+    reversed polyline has the same length.  (In the implementation `np.linspace(b, a)` is the reversed list up to rounding: oracle, 1e-9.) -/
+theorem T_C16_order_function (d : α → α → Rat) (hsym : ∀ x y, d x y = d y x) (f : Rat → α) (a b : Rat) (N : Nat) (hN : 1 ≤ N) :
+    discretizeF f b a (N + 1) = (discretizeF f a b (N + 1)).reverse ∧
+    polyLenD d (discretizeF f b a (N + 1)) = polyLenD d (discretizeF f a b (N + 1)) := by
+  have e : discretizeF f b a (N + 1) = (discretizeF f a b (N + 1)).reverse := by
+    unfold discretizeF; rw [linspace_reverse a b N hN, List.map_reverse]
+  exact ⟨e, by rw [e, polyLenD_reverse d hsym]⟩
+
+/-- … hence `AnalyticCurve.get_length(a, b) = get_length(b, a)` in the model (100 samples), whenever both are accepted -/
+theorem T_C16_order_analytic (d : α → α → Rat) (hsym : ∀ x y, d x y = d y x) (f : Rat → α) (lo hi a b : Rat) :
+    getLengthA d f lo hi (some a) (some b) = getLengthA d f lo hi (some b) (some a) := by
+  unfold getLengthA discretizeFB getParamsF
+  simp only [Option.getD_some]
+  by_cases h : lo ≤ a ∧ a ≤ hi ∧ lo ≤ b ∧ b ≤ hi
+  · have h' : lo ≤ b ∧ b ≤ hi ∧ lo ≤ a ∧ a ≤ hi := ⟨h.2.2.1, h.2.2.2, h.1, h.2.1⟩
+    rw [if_pos h, if_pos h']
+    simp only [Option.map_some]
+    congr 1
+    exact ((T_C16_order_function d hsym f b a 99 (by norm_num)).2)
+  · have h' : ¬ (lo ≤ b ∧ b ≤ hi ∧ lo ≤ a ∧ a ≤ hi) := fun h' => h ⟨h'.2.2.1, h'.2.2.2, h'.1, h'.2.1⟩
+    rw [if_neg h, if_neg h']
+
+example : discretizeF (fun t : Rat => t * t) 3 0 4 = [9, 4, 1, 0] ∧ discretizeF (fun t : Rat => t * t) 0 3 4 = [0, 1, 4, 9] := by
+  constructor <;> decide +kernel
+
 /-! ### round 6: tie to the source text (tables regenerated by `cbv/tables/c16.py` with `ast` on every run) -/
 
 open CBV.C08 (chain opsAt operandsAt cmpOp) in
